@@ -198,14 +198,30 @@ Definition bit (n : N) (v : option N) : bool := match v with Some x => N.testbit
 Definition pdr_refs (s : sess) (u : N) : N :=
   N.of_nat (length (filter (fun p => memN u (snd p)) (s_pdrs s))).
 
+(* the URR of that id which the session still holds (not marked removed) *)
+Definition held_urr (s : sess) (i : N) : option urrinfo :=
+  match alookup i (s_urrs s) with
+  | Some u => if ui_removed u then None else Some u
+  | None => None
+  end.
+
+(* node.go CreateURR (after fix "Create URR for a held id keeps its UR-SEQN"): the new bookkeeping entry inherits the
+   sequence counter of a held URR of that id; when the data plane rejects the create the held entry is put back *)
 Definition create_urr (e : env) (o : urr_op) (c : sctx) : sctx :=
   match uo_id o with
   | None => c
   | Some i =>
-    let info := mkUrr false 0 (bit 0 (uo_method o)) (bit 1 (uo_method o)) (bit 2 (uo_method o))
+    let old := held_urr (c_s c) i in
+    let info := mkUrr false (match old with Some u => ui_seqn u | None => 0 end)
+                      (bit 0 (uo_method o)) (bit 1 (uo_method o)) (bit 2 (uo_method o))
                       (bit 4 (uo_info o)) (pdr_refs (c_s c) i mod 65536) in
     let c1 := upd_s c (fun s => set_urrs (aset i info (s_urrs s)) s) in
-    fst (drv e c1 DCreate KURR i)
+    let '(c2, ok) := drv e c1 DCreate KURR i in
+    if ok then c2
+    else match old with
+         | Some u => upd_s c2 (fun s => set_urrs (aset i u (s_urrs s)) s)
+         | None => c2
+         end
   end.
 
 Definition update_urr (e : env) (o : urr_op) (c : sctx) : sctx * list rpt :=
@@ -295,11 +311,42 @@ Definition incr_ref (u : N) (l : list (N * urrinfo)) : list (N * urrinfo) :=
 
 Definition pdr_id (o : pdr_op) : N := match po_id o with Some i => i | None => 0 end.
 
-Definition create_pdr (e : env) (o : pdr_op) (c : sctx) : sctx :=
+(* one reference less (never below zero): the bookkeeping half of diassociate, without the data-plane query *)
+Definition decr_ref (u : N) (l : list (N * urrinfo)) : list (N * urrinfo) :=
+  match alookup u l with
+  | None => l
+  | Some inf => if 0 <? ui_ref inf
+                then aset u (mkUrr (ui_removed inf) (ui_seqn inf) (ui_durat inf) (ui_volum inf) (ui_event inf)
+                                   (ui_mnop inf) (ui_ref inf - 1)) l
+                else l
+  end.
+
+(* Create PDR for an id the session does not hold *)
+Definition create_pdr_new (e : env) (o : pdr_op) (c : sctx) : sctx :=
   let us := dedup (po_urrs o) in
   let c1 := upd_s c (fun s => set_urrs (fold_left (fun l u => incr_ref u l) us (s_urrs s)) s) in
   let c2 := upd_s c1 (fun s => set_pdrs (aset (pdr_id o) us (s_pdrs s)) s) in
   fst (drv e c2 DCreate KPDR (pdr_id o)).
+
+(* Create PDR for an id the session still holds (after fix "Create PDR for a held id replaces its associations"): the
+   PDR's URR associations are REPLACED as Update PDR replaces them (references of newly named URRs up, of no longer
+   named ones down, no data-plane query); if the data plane rejects the create, URR and PDR bookkeeping are put back *)
+Definition create_pdr_held (e : env) (o : pdr_op) (old : list N) (c : sctx) : sctx :=
+  let new := dedup (po_urrs o) in
+  let added := filter (fun u => negb (memN u old)) new in
+  let dropped := filter (fun u => negb (memN u new)) old in
+  let c1 := upd_s c (fun s => set_urrs (fold_left (fun l u => decr_ref u l) dropped
+                                          (fold_left (fun l u => incr_ref u l) added (s_urrs s))) s) in
+  let c2 := upd_s c1 (fun s => set_pdrs (aset (pdr_id o) new (s_pdrs s)) s) in
+  let '(c3, ok) := drv e c2 DCreate KPDR (pdr_id o) in
+  if ok then c3
+  else upd_s c3 (fun s => set_pdrs (s_pdrs (c_s c)) (set_urrs (s_urrs (c_s c)) s)).
+
+Definition create_pdr (e : env) (o : pdr_op) (c : sctx) : sctx :=
+  match alookup (pdr_id o) (s_pdrs (c_s c)) with
+  | None => create_pdr_new e o c
+  | Some old => create_pdr_held e o old c
+  end.
 
 Definition update_pdr (e : env) (o : pdr_op) (c : sctx) : sctx * list rpt :=
   match alookup (pdr_id o) (s_pdrs (c_s c)) with
